@@ -247,11 +247,75 @@ var c08Content = registerSpace(&e1Space{
 	},
 })
 
+
+// space "siblings": what one block/yield does with the pending content must not leak into the next sibling.
+// Sequences of <=3 items (yield of a parameter-less / parameterised wrapper with and without content, in-place
+// definitions with and without default content, yield content) at the top level and inside the body of an
+// outer block that was itself yielded with content.
+const c08NSib = 7
+
+func c08Sib(k, id int) []rj.Stmt {
+	c := rj.T(fmt.Sprintf("c%d", id))
+	switch k {
+	case 0:
+		return []rj.Stmt{&rj.Yield{Name: "box", HasContent: true, Content: []rj.Stmt{c}}}
+	case 1:
+		return []rj.Stmt{&rj.Yield{Name: "box"}}
+	case 2:
+		return []rj.Stmt{&rj.Yield{Name: "pbox", HasContent: true, Content: []rj.Stmt{c}}}
+	case 3:
+		return []rj.Stmt{&rj.Yield{Name: "pbox"}}
+	case 4:
+		return []rj.Stmt{&rj.BlockDef{Name: fmt.Sprintf("d%d", id), Body: []rj.Stmt{rj.T("<"), &rj.YieldContent{}, rj.T(">")}, HasContent: true, Content: []rj.Stmt{rj.T(fmt.Sprintf("def%d", id))}}}
+	case 5:
+		return []rj.Stmt{&rj.BlockDef{Name: fmt.Sprintf("e%d", id), Body: []rj.Stmt{rj.T("(e:"), &rj.YieldContent{}, rj.T(")")}}}
+	default:
+		return []rj.Stmt{rj.T("yc:"), &rj.YieldContent{}}
+	}
+}
+
+var c08Siblings = registerSpace(&e1Space{
+	Prop: "C08", Name: "siblings",
+	N: func(th bool) int64 { return (1 + c08NSib + c08NSib*c08NSib + c08NSib*c08NSib*c08NSib) * 3 },
+	Gen: func(i int64, th bool) *rj.Program {
+		where := int(i % 3)
+		i /= 3
+		n := 0
+		for n = 0; n <= 3; n++ {
+			if i < pow(c08NSib, int64(n)) {
+				break
+			}
+			i -= pow(c08NSib, int64(n))
+		}
+		var seq []rj.Stmt
+		for j := 0; j < n; j++ {
+			seq = append(seq, c08Sib(int(i%c08NSib), j+1)...)
+			seq = append(seq, rj.T("|"))
+			i /= c08NSib
+		}
+		lib := []rj.Stmt{
+			&rj.BlockDef{Name: "box", Body: []rj.Stmt{rj.T("["), &rj.YieldContent{}, rj.T("]")}},
+			&rj.BlockDef{Name: "pbox", Params: []rj.Param{{Name: "a", Val: rj.N(1)}}, Body: []rj.Stmt{rj.T("("), &rj.YieldContent{}, rj.T(")")}},
+		}
+		body := seq
+		switch where {
+		case 1:
+			lib = append(lib, &rj.BlockDef{Name: "outer", Body: append(append([]rj.Stmt{rj.T("o:")}, seq...), rj.T("yc:"), &rj.YieldContent{})})
+			body = []rj.Stmt{&rj.Yield{Name: "outer", HasContent: true, Content: []rj.Stmt{rj.T("OUT")}}, rj.T("|"), &rj.Yield{Name: "box"}}
+		case 2:
+			lib = append(lib, &rj.BlockDef{Name: "outer", Params: []rj.Param{{Name: "p", Val: rj.N(1)}}, Body: append(append([]rj.Stmt{rj.T("o:")}, seq...), rj.T("yc:"), &rj.YieldContent{})})
+			body = []rj.Stmt{&rj.Yield{Name: "outer", HasContent: true, Content: []rj.Stmt{rj.T("OUT")}}, rj.T("|"), &rj.Yield{Name: "box"}}
+		}
+		return &rj.Program{Files: []*rj.File{{Name: "/t.jet", Imports: []string{"/lib.jet"}, Body: body}, {Name: "/lib.jet", Body: lib}}, Entry: "/t.jet", Mk: c08Mk}
+	},
+})
+
 func C08(r *core.Run) map[string]interface{} {
-	r.Rule = "all template sets with an extends chain of 1-3 and 0-2 imports where every non-root template defines any subset of {A,B} (plain, conditional, nested placement), x 8 positions of the yield/definition site in the root; parameter lists of 3 with every default pattern x every ordered subset of named arguments x 3 block homes; content nesting/recursion/caller-scope variants; distinct = distinct reference outputs"
+	r.Rule = "all template sets with an extends chain of 1-3 and 0-2 imports where every non-root template defines any subset of {A,B} (plain, conditional, nested placement), x 8 positions of the yield/definition site in the root; parameter lists of 3 with every default pattern x every ordered subset of named arguments x 3 block homes; content nesting/recursion/caller-scope variants; sibling sequences (<=3 of 7 items: wrappers with/without parameters and content, in-place definitions with/without default content, yield content) at top level and inside an outer block yielded with content; distinct = distinct reference outputs"
 	runSpace(r, c08Sets)
 	runSpace(r, c08Params)
 	runSpace(r, c08Content)
+	runSpace(r, c08Siblings)
 	return map[string]interface{}{"traces_validated_against_impl": r.Evals()}
 }
 
